@@ -172,6 +172,7 @@ func init() {
 		Run: func(w *World, r *Report, tier string) {
 			guard(r, "CONST", func() { ruleCONST(w, r, constOpts{field: true}) })
 			guard(r, "TABLEFILL", func() { ruleTABLEFILL(w, r, 1, "expTable", "logTable") })
+			guard(r, "INTONLY", func() { ruleINTONLY(w, r) })
 			guard(r, "RANGE", func() {
 				ruleRANGE(w, r, []string{"gf2p16", "gf2"}, 10, func(fn *ssa.Function) bool {
 					return fn.Signature.Recv() != nil && namedTypeName(fn.Signature.Recv().Type()) != "gf2p16.Matrix"
@@ -254,6 +255,9 @@ func init() {
 			guard(r, "RANGE", func() { ruleRANGE(w, r, []string{"par1", "par2"}, 0) })
 			guard(r, "GATE", func() { ruleGATE(w, r, gateOpts{par2: true, par1: true}) })
 			guard(r, "ERRFLOW", func() { ruleERRFLOW(w, r, errflowScope{fnNames: parseChain, tag: " in the parsing functions"}, 40) })
+			guard(r, "NILLIVE", func() { ruleNILLIVE(w, r) })
+			guard(r, "NONEMPTY", func() { ruleNONEMPTY(w, r, "rsec16", "par1", "par2") })
+			guard(r, "PAIR", func() { rulePAIRpar2(w, r, pairOpts{decoder: true}) })
 		},
 	})
 
